@@ -47,6 +47,11 @@ NASTY = {
     "u64-max-plus-one": "let a = 18446744073709551616;\nres / on get -> <{}>;\n",
     "u64-max": "res / on get -> <status=18446744073709551615, {}>;\n",
     "recursive-property-type": "let x = 'p x;\nres / on get -> <{}>;\n",
+    "recursive-function-range": "let f x = f;\nres / on get -> <{}>;\n",
+    "recursive-function-binding": "let f x = x f;\nres / on get -> <{}>;\n",
+    "recursive-second-binding-only": "let f x y = y;\nlet a = f f num;\nres / on get -> <a>;\n",
+    "recursive-first-of-two-bindings": "let f x y = x y x;\nres / on get -> <{}>;\n",
+    "recursive-nested-property-function": "let g x = 'p (x g);\nres / on get -> <{}>;\n",
     "only-operators": ":: -> | & ~ ! ? = : ;",
     "nul-bytes": "let a\x00 = num;\x00",
     "status-zero": "res / on get -> <status=0, {}>;\n",
